@@ -96,6 +96,11 @@ func genC18(seed int64, tier string) *Scenario {
 	sc.Knobs["main"] = mainPath
 	sc.Knobs["refs"] = refs
 	sc.Ops = append(sc.Ops, Op{Kind: "open", Path: mainPath}, Op{Kind: "check"})
+	savedMain := r.Intn(2) == 0
+	if savedMain {
+		// the requiring file has been saved once (its content is then cached by the server)
+		sc.Ops = append(sc.Ops, Op{Kind: "save", Path: mainPath}, Op{Kind: "deliver"})
+	}
 	// create / delete events between the probes
 	nev := r.Intn(4)
 	for i := 0; i < nev; i++ {
@@ -109,7 +114,12 @@ func genC18(seed int64, tier string) *Scenario {
 		if len(cands) > 0 && r.Intn(2) == 0 {
 			p := cands[r.Intn(len(cands))]
 			delete(exists, p)
-			sc.Ops = append(sc.Ops, Op{Kind: "fsremove", Path: p}, Op{Kind: "deliver"})
+			sc.Ops = append(sc.Ops, Op{Kind: "fsremove", Path: p})
+			if r.Intn(3) == 0 {
+				// one watcher batch: the module event together with a no-op change of the requirer
+				sc.Ops = append(sc.Ops, Op{Kind: "touchq", Path: mainPath})
+			}
+			sc.Ops = append(sc.Ops, Op{Kind: "deliver"})
 		} else {
 			d := dirs[r.Intn(len(dirs))]
 			n := names[r.Intn(len(names))]
@@ -121,6 +131,9 @@ func genC18(seed int64, tier string) *Scenario {
 				continue
 			}
 			exists[p] = true
+			if r.Intn(3) == 0 {
+				sc.Ops = append(sc.Ops, Op{Kind: "touchq", Path: mainPath})
+			}
 			sc.Ops = append(sc.Ops, Op{Kind: "fswrite", Path: p, Data: Bytes("local M = {}\nreturn M\n")}, Op{Kind: "deliver"})
 		}
 		sc.Ops = append(sc.Ops, Op{Kind: "check"})
